@@ -676,7 +676,20 @@ func writeEvidence(p *core.Prop, tier string, seed uint64, st *runState, wall fl
 		cov["observed_min"] = st.agg.Min
 	}
 	if len(st.agg.Tags) > 0 {
-		cov["observed_tags"] = st.agg.Tags
+		// tags of the form "interleaving:<hash>" identify distinct observed interleavings: report their number
+		tags := map[string]int{}
+		distinct := 0
+		for k, v := range st.agg.Tags {
+			if strings.HasPrefix(k, "interleaving:") {
+				distinct++
+			} else {
+				tags[k] = v
+			}
+		}
+		if distinct > 0 {
+			cov["distinct_interleavings_observed"] = distinct
+		}
+		cov["observed_tags"] = tags
 	}
 	if p.Exhaustive != nil && p.Exhaustive(tier) {
 		cov["exhaustive"] = true
